@@ -20,7 +20,7 @@ ASSUMPTIONS = ["recorders are ordinary sink nodes logging (time, value) from use
 FLOORS = {"deliveries_checked": {"quick": 3000, "thorough": 40000}, "loops": {"quick": 300, "thorough": 4000},
           "consecutive_step_writes": {"quick": 300, "thorough": 4000}, "quiescent_loops": {"quick": 4, "thorough": 60},
           "collection_deliveries_checked": {"quick": 500, "thorough": 8000},
-          "deliveries_after_captured_error": {"quick": 60, "thorough": 1000}}
+          "deliveries_after_captured_error": {"quick": 60, "thorough": 1000}, "passive_active_twin_readers": {"quick": 15, "thorough": 250}}
 BATCH = 25
 
 
@@ -69,6 +69,18 @@ def gen_fb_case(rng, name):
             st.append(S(nm, op, *args, **kw))
             avail.append(nm)
             body.append(nm)
+            if any(a.startswith("~") for a in args) and rng.random() < 0.5:
+                # the same definition over the same ports and scalars, reading the feedback ACTIVELY, next to the passive
+                # reader (wired before or after it): two different nodes - the passive loop must still become quiescent and
+                # the active reader must still see every delivery
+                twin = S(nm + "a", op, *[a.lstrip("~") for a in args], **kw)
+                if rng.random() < 0.5:
+                    st.insert(len(st) - 1, twin)
+                else:
+                    st.append(twin)
+                avail.append(nm + "a")
+                c.meta.setdefault("skip_uids", []).append(kw["uid"])
+                c.meta["passive_active_twins"] = c.meta.get("passive_active_twins", 0) + 1
         if depth < 1 and rng.random() < 0.35:
             sid = len([g for g in c.graphs if g.startswith("sub")]) + (0 if gname == "main" else 1)
             sid = 1 + max([int(g[3:]) for g in c.graphs if g.startswith("sub")] + [-1])
@@ -251,6 +263,7 @@ def check(case, tr):
     if case.meta.get("passive_loop") and mr.cycles and mr.cycles[-1] < case.end - 3:
         quiescent = 1
     res.counters = {"deliveries_checked": delivered, "loops": len(case.meta["fb"]), "consecutive_step_writes": consecutive,
-                    "quiescent_loops": quiescent, "runs_compared": len(mr.runs)}
+                    "quiescent_loops": quiescent, "runs_compared": len(mr.runs),
+                    "passive_active_twin_readers": case.meta.get("passive_active_twins", 0)}
     res.nontrivial = delivered >= 3
     return res
